@@ -8,59 +8,80 @@ LEVEL = 'model_checking'
 
 
 def xml_for(d):
-    # a description whose content identifies it: an event named after the body
-    return ('<?xml version="1.0"?>\n<protocol name="p_%s">\n <interface name="%s" version="%d">\n'
-            '  <event name="%s"><arg name="x_%s" type="uint"/></event>\n </interface>\n</protocol>\n'
-            % (d['body'], d['name'], d['version'], d['body'], d['body']))
+    """the XML file of a synthetic description (as MC_Protocol defines it)"""
+    out = ['<?xml version="1.0"?>', '<protocol name="p_%s">' % d['tag'], ' <interface name="%s" version="%d">' % (d['name'], d['version'])]
+    for mn, args in d['msgs'].items():
+        out.append('  <request name="%s">' % mn)
+        for a in args:
+            attrs = 'name="%s" type="%s"' % (a['name'], a['type'])
+            if a['iface']:
+                attrs += ' interface="%s"' % a['iface']
+            if a['ename']:
+                attrs += ' enum="%s"' % ((a['eiface'] + '.' if a['eiface'] else '') + a['ename'])
+            out.append('   <arg %s/>' % attrs)
+        out.append('  </request>')
+    for en, e in d['enums'].items():
+        out.append('  <enum name="%s"%s>' % (en, ' bitfield="true"' if e['bitfield'] else ''))
+        for x in e['entries']:
+            out.append('   <entry name="%s" value="%d"/>' % (x['name'], x['value']))
+        out.append('  </enum>')
+    out += [' </interface>', '</protocol>', '']
+    return '\n'.join(out)
 
 
 def load_orders(ctx, rep):
-    """P1 + P2: version precedence for every order of loading"""
+    """P1 + P2: version precedence and the lookups after every prefix of every order of loading"""
     r = tlc.run_tlc('MC_Protocol.tla', cfg='MC_Protocol.cfg', workers=8)
     if r.violated:
         raise tlc.MachineryError('MC_Protocol violates %s' % r.violated)
     rep.add_tlc(r, 'P1 HighestWins / NothingElse / OrderFree after every prefix of every load order of 6 synthetic descriptions')
-    cfg = open(os.path.join(tlc.SPEC, 'MC_Protocol.cfg')).read().replace('INVARIANT HighestWins\nINVARIANT NothingElse\nINVARIANT OrderFree\n', 'ACTION_CONSTRAINT Emit\n')
+    cfg = open(os.path.join(tlc.SPEC, 'MC_Protocol.cfg')).read().replace('INVARIANT HighestWins\nINVARIANT NothingElse\nINVARIANT OrderFree\n', 'ACTION_CONSTRAINT EmitAll\n')
     tmpcfg = os.path.join(tlc.SPEC, '_emit_proto_%d.cfg' % os.getpid())
     open(tmpcfg, 'w').write(cfg)
     try:
         r = tlc.run_tlc('MC_Protocol.tla', cfg=os.path.basename(tmpcfg), workers=1)
     finally:
         os.unlink(tmpcfg)
-    orders = [json.loads(x[0]) for x in tlc.printed_tuples(r.stdout, 'ORDER')]
-    rep.add_tlc(r, 'P2 load orders emitted')
+    prefixes = [json.loads(x[0]) for x in tlc.printed_tuples(r.stdout, 'ORDER')]
+    dd = tlc.printed_tuples(r.stdout, 'DESCS')[0]
+    descs = {d['tag']: d for d in json.loads(dd[0])}
+    questions = json.loads(dd[1])
+    rep.add_tlc(r, 'P2 every prefix of every load order with the answers Protocol.tla gives on the table reached')
     if ctx.quick:
-        orders = ctx.rnd.sample(orders, 150)
+        prefixes = ctx.rnd.sample(prefixes, 500)
     m = e1.mods()
     proto = m.protocol
     tmp = tempfile.mkdtemp(prefix='c07-', dir=os.path.join(tlc.OUT, 'tmp'))
     saved = dict(proto.interfaces)
     try:
         paths = {}
-        for o in orders[:1]:
-            for d in o['order']:
-                p = os.path.join(tmp, d['body'] + '.xml')
-                open(p, 'w').write(xml_for(d))
-                paths[d['body']] = p
+        for tag, d in descs.items():
+            paths[tag] = os.path.join(tmp, tag + '.xml')
+            open(paths[tag], 'w').write(xml_for(d))
         out = m.Output(False, False, m.stream.Null(), m.stream.Null())
-        for o in orders:
+        for o in prefixes:
             proto.dump_all()
-            seen = {}
-            for d in o['order']:
-                proto.load(paths[d['body']], out)
-                seen.setdefault(d['name'], []).append(d)
-                for nm, ds in seen.items():
-                    best = max(x['version'] for x in ds)
-                    ok_bodies = {x['body'] for x in ds if x['version'] == best}
-                    got = proto.interfaces.get(nm)
-                    sig = 'order:' + ','.join(x['body'] for x in o['order'])
-                    if got is None:
-                        rep.violation('load-order:dropped', 'after loading %s interface %s is missing' % (sig, nm), {'kind': 'order', 'order': o['order']})
-                    elif got.version != best or not (set(got.messages) & ok_bodies):
-                        rep.violation('load-order:not-highest', 'after loading %s interface %s has version %s / messages %s, the highest loaded is %s (%s)'
-                                      % (sig, nm, got.version, list(got.messages), best, sorted(ok_bodies)), {'kind': 'order', 'order': o['order']})
-            rep.case('order:' + ','.join(x['body'] for x in o['order']))
-        rep.extra['load_orders_replayed'] = len(orders)
+            for tag in o['order']:
+                proto.load(paths[tag], out)
+            sig = 'load order ' + ' '.join(o['order'])
+            rep.case(sig)
+            rp = {'kind': 'order', 'order': o['order']}
+            for nm, ver in o['versions'].items():
+                got = proto.interfaces.get(nm)
+                if got is None:
+                    rep.violation('load-order:dropped', 'after %s interface %s is missing' % (sig, nm), rp)
+                elif got.version != ver:
+                    rep.violation('load-order:not-highest', 'after %s interface %s has version %s, the highest loaded is %s' % (sig, nm, got.version, ver), rp)
+            # two descriptions of the same version: either may stay, questions about their messages are not judged
+            same = {descs[t]['name'] for t in o['order'] for u in o['order'] if t != u and descs[t]['name'] == descs[u]['name'] and descs[t]['version'] == descs[u]['version']}
+            for q, want in zip(questions, o['answers']):
+                if q['i'] in same:
+                    continue
+                got = ask(m, q)
+                if got != want:
+                    rep.violation('load-order:lookup:%s' % q['q'], 'after %s the %s lookup %s.%s#%d (value %d) answers %r, the table reached says %r'
+                                  % (sig, q['q'], q['i'], q['m'], q['k'], q['v'], got, want), rp)
+        rep.extra['load_order_prefixes_replayed'] = len(prefixes)
     finally:
         proto.interfaces.clear()
         proto.interfaces.update(saved)
